@@ -451,6 +451,33 @@ class DrvDomain(Domain):
     def index(self, base, idx, e, fr):
         raise AnalysisBroken("raw subscript on %r at %s" % (base, ir.locstr(e)))
 
+    def range_for(self, s, fr):
+        """for (int& t : threads_per_level_) / for (x : residual_norms_): one pass per element, in order"""
+        it = self.interp
+        from .interp import BreakEx, ContinueEx
+        r = it.eval(s["range"], fr)
+        r = r.get() if isinstance(r, Cell) else r
+        v = s["var"]
+        if isinstance(r, Handle) and r.kind == "threads":
+            n_ = getattr(r, "length", None)
+            if not isinstance(n_, int):
+                raise AnalysisBroken("range-for over threads_per_level_ of unknown length at %s" % ir.locstr(s))
+            cells = [Cell(Opaque("threads"), "threads_per_level_[%d]" % i) for i in range(n_)]
+            self.field_reads.add("threads_per_level_")
+        elif isinstance(r, ListObj):
+            cells = [x if isinstance(x, Cell) else Cell(x, "%s[%d]" % (r.name, i)) for i, x in enumerate(r.items)]
+        else:
+            raise AnalysisBroken("range-for over %r not modelled at %s" % (r, ir.locstr(s)))
+        is_ref = (v.get("t") or "").rstrip().endswith("&")
+        for c in cells:
+            fr.vars[v["id"]] = c if is_ref else Cell(c.get(), v["name"])
+            try:
+                it.exec(s["body"], fr)
+            except BreakEx:
+                break
+            except ContinueEx:
+                pass
+
     def omp(self, s, fr):
         raise AnalysisBroken("OpenMP region inside an interpreted driver function at %s" % ir.locstr(s))
 
